@@ -10,7 +10,8 @@ import vcommon
 IMPORTS = ["Base", "Harness", "Cigar", "SamModel", "TopaModel", "Check_C15"]
 CHECK_FN = "check_C15"
 RULE = ("groups of runs on one input: sam toMultiAlign untrimmed / --start,--end (each alone, both) x --pad x --wrap; "
-        "sam toPairAlign untrimmed / windowed x --wrap; variants unrestricted / --start alone / --end alone / both. Within a "
+        "sam toPairAlign untrimmed / windowed x --wrap (random multi-record queries, and runs of single-record queries with "
+        "equal total inserted length at different sites handled by one worker); variants unrestricted / --start alone / --end alone / both. Within a "
         "group the implementation's outputs are compared with each other as the statement says (columns s..e of the "
         "untrimmed row; --pad masks outside the window; cut from the column of base s to that of base e; removing line "
         "breaks gives the unwrapped text; kept mutations = those with s <= p <= e), and every run is compared with the Coq "
@@ -72,6 +73,31 @@ def generate(ctx):
         for (s, e) in windows(rng, L):
             for w in (0, rng.choice([1, 4])):
                 cs.append(topa_case(cid, ref, recs, {"start": s, "end": e, "wrap": w, "threads": 2}, (g, "topa"), (s, e, w)))
+                cid += 1
+        g += 1
+    # toPairAlign, one worker: consecutive queries whose gapped references have the SAME width (equal total inserted
+    # length) but different insertion sites, windows with an end between the sites
+    for _ in range(n):
+        L = rng.choice([10, 16, 30])
+        ref = gen.rand_seq(rng, L)
+        ilen = rng.randint(1, 3)
+        recs = []
+        sites = []
+        for qi in range(rng.randint(2, 4)):
+            a = rng.randint(1, L - 1)
+            sites.append(a)
+            if rng.random() < 0.7:
+                cig = [("M", a), ("I", ilen), ("M", L - a)]
+            else:       # same total inserted length split over two sites
+                b = rng.randint(a, L - 1)
+                cig = [("M", a), ("I", ilen), ("M", L - a)] if (ilen < 2 or b == a) else [("M", a), ("I", 1), ("M", b - a), ("I", ilen - 1), ("M", L - b)]
+            recs.append({"name": "q%d" % qi, "flag": 0, "pos": 0, "cigar": cig, "seq": samgen.build_seq(rng, cig, 0, gen.mutate(rng, ref, p_sub=0.1, p_amb=0, p_gap=0, p_lower=0))})
+        lo, hi = min(sites), max(sites)
+        s0 = rng.randint(max(1, lo), max(1, hi))
+        e0 = rng.randint(s0, L)
+        for (s, e) in [(-1, -1), (s0, -1), (-1, max(1, min(L, rng.randint(lo, max(lo, hi))))), (s0, e0)]:
+            for w in (0, rng.choice([1, 4])):
+                cs.append(topa_case(cid, ref, recs, {"start": s, "end": e, "wrap": w, "threads": 1}, (g, "topa"), (s, e, w)))
                 cid += 1
         g += 1
     for _ in range(n):
